@@ -68,6 +68,7 @@ def o_seq(case):
         it = iter(rdr)
         cap = len(emitted) + 4
         polls = 0
+        second = False
         while True:
             try:
                 raw, parsed = next(it)
@@ -75,6 +76,11 @@ def o_seq(case):
                 # end of iteration; over a socket with gaps in delivery the application polls again until the peer closes
                 if sock is not None and not sock.closed_by_peer and polls < 4 * len(case.get("cuts", [])) + 16:
                     polls += 1
+                    it = iter(rdr)
+                    continue
+                if not second:
+                    # a second for-loop over the same, exhausted reader: every frame was returned once already
+                    second = True
                     it = iter(rdr)
                     continue
                 break
